@@ -80,6 +80,11 @@ impl<'a> LexiconSet<'a> {
         self.lexicons.len() >= MAX_DICTIONARIES
     }
 
+    /// Number of words in the system dictionary (the first lexicon)
+    pub(crate) fn num_system_words(&self) -> u32 {
+        self.lexicons[0].size()
+    }
+
     /// Number of parts of speech defined by the system dictionary itself
     /// (POS registered by plugins or merged from user dictionaries are not counted)
     pub(crate) fn num_system_pos(&self) -> usize {
